@@ -166,6 +166,89 @@ def walk (g : Graph N) (direct : N → Bool) (f : List N → N → List R → Ex
         | some r => (.ok r, cleanup inval pending s2)
         | none => (.raise .key, cleanup inval pending s2)
 
+/-! #### crash points outside the callbacks
+
+    `_get_children(formula)` and `_get_key(s)` are methods a walker may override, and they can raise:
+    `DagWalker._get_key` raises `NotImplementedError` when keyword arguments are passed and it is not overridden,
+    `PolarityCNFizer._get_children` and `NNFizer._get_children` contain assertions.  In
+    `_push_with_children_to_stack` they run *after* `(True, formula)` was appended, `_get_key` possibly after some
+    children were pushed; in `_compute_node_result` `_get_key(formula)` runs first. -/
+
+structure Faults (N E : Type) where
+  children : N → Option E      -- `_get_children(n)` raises
+  key      : N → Option E      -- `_get_key(n)` raises
+
+def Faults.none {N E : Type} : Faults N E := ⟨fun _ => Option.none, fun _ => Option.none⟩
+
+/-- the children pushed before `_get_key` raises on one of them -/
+def pushUntil (flt : Faults N E) (m : M) : List N → List N × Option E
+  | [] => ([], Option.none)
+  | c :: cs =>
+    match flt.key c with
+    | some e => ([], some e)
+    | Option.none =>
+      let r := pushUntil flt m cs
+      (if (look m c).isNone then c :: r.1 else r.1, r.2)
+
+/-- the crash point met by the next loop iteration, if any: the error and the state the exception leaves -/
+def faultAt (g : Graph N) (direct : N → Bool) (flt : Faults N E) (s : WState M N) : Option (Err E × WState M N) :=
+  match s.stack with
+  | [] => Option.none
+  | (true, n) :: rest =>
+    match flt.key n with
+    | some e => some (.cb e, { s with stack := rest, iters := s.iters + 1 })
+    | Option.none => Option.none
+  | (false, n) :: rest =>
+    if direct n then
+      match flt.key n with
+      | some e => some (.cb e, { s with stack := rest, iters := s.iters + 1 })
+      | Option.none => Option.none
+    else
+      match flt.children n with
+      | some e => some (.cb e, { s with stack := (true, n) :: rest, pushes := s.pushes + 1, iters := s.iters + 1 })
+      | Option.none =>
+        let r := pushUntil flt s.memo (g.children n)
+        match r.2 with
+        | some e => some (.cb e, { s with stack := (r.1.map (fun c => (false, c))).reverse ++ (true, n) :: rest,
+                                          pushes := s.pushes + 1 + r.1.length, iters := s.iters + 1 })
+        | Option.none => Option.none
+
+/-- one loop iteration with crash points in `_get_children` / `_get_key` -/
+def stepF (g : Graph N) (direct : N → Bool) (f : List N → N → List R → Except E R) (flt : Faults N E)
+    (s : WState M N) : Res E M N :=
+  match faultAt g direct flt s with
+  | some (e, s') => .fail e s'
+  | Option.none => step g direct f s
+
+def iterF (g : Graph N) (direct : N → Bool) (f : List N → N → List R → Except E R) (flt : Faults N E) :
+    Nat → WState M N → Res E M N
+  | 0, s => .run s
+  | k + 1, s =>
+    match s.stack with
+    | [] => .run s
+    | _ :: _ =>
+      match stepF g direct f flt s with
+      | .run s' => iterF g direct f flt k s'
+      | .fail e s' => .fail e s'
+
+/-- `DagWalker.walk` with the additional crash points -/
+def walkF (g : Graph N) (direct : N → Bool) (f : List N → N → List R → Except E R) (flt : Faults N E)
+    (inval shortcut : Bool) (fuel : Nat) (n : N) (s : WState M N) : WOut E R × WState M N :=
+  match (if shortcut then look s.memo n else none) with
+  | some r => (.ok r, s)
+  | none =>
+    let pending := s.stack.length
+    let s1 : WState M N := { s with stack := (false, n) :: s.stack, pushes := s.pushes + 1 }
+    match iterF g direct f flt fuel s1 with
+    | .fail e s2 => (.raise e, cleanup inval pending s2)
+    | .run s2 =>
+      match s2.stack with
+      | _ :: _ => (.fuel, cleanup inval pending s2)
+      | [] =>
+        match look s2.memo n with
+        | some r => (.ok r, cleanup inval pending s2)
+        | none => (.raise .key, cleanup inval pending s2)
+
 /-- The state of a freshly constructed walker. -/
 def WState.init : WState M N := ⟨[], MemoLike.empty, [], 0, 0⟩
 
@@ -236,6 +319,21 @@ def walks (g : Graph N) (direct : N → Bool) (f : List N → N → List R → E
   | q :: qs, s =>
     let r := walk g direct f inval shortcut fuel q s
     let rs := walks g direct f inval shortcut fuel qs r.2
+    (r.1 :: rs.1, rs.2)
+
+end
+
+section
+variable {M N R E : Type} [DecidableEq N] [MemoLike M N R]
+
+/-- consecutive `walk` calls on the same walker object, each with its own callbacks: `substitute` with different
+    maps on `env.substituter`, `get_size` after `set_walking_measure`, a failing call followed by good ones -/
+def walksF (g : Graph N) (direct : N → Bool) (inval shortcut : Bool) (fuel : Nat) :
+    List ((List N → N → List R → Except E R) × N) → WState M N → List (WOut E R) × WState M N
+  | [], s => ([], s)
+  | (f, q) :: qs, s =>
+    let r := walk g direct f inval shortcut fuel q s
+    let rs := walksF g direct inval shortcut fuel qs r.2
     (r.1 :: rs.1, rs.2)
 
 end
